@@ -9,6 +9,10 @@ CHECKS = {
          "All 1093 patterns of length <=6 over {*,a,b} x all 511 texts of length <=8 over {a,b} (and the same with a 2-byte and a 4-byte character, texts containing `*`, and host-shaped self-overlapping families) are run through the real wildcard_match; any misclassified pair is a counter-example. Exhaustive within the stated alphabet/length bounds, which contain every shape of backtracking the algorithm has (leading/trailing/adjacent stars, repeated literals).",
          "Trusted: the 12-line DP reference matcher in checks/src/props/c05.rs. Nothing about longer strings or other alphabets is claimed beyond the bounds in the evidence file.",
          "DESIGN.md §3 C05"),
+ "C13": ("E2-enum", "bounded-exhaustive enumeration of token strings / number-like strings / escape forms / value trees against an RFC 8259 reference recogniser-evaluator",
+         "Every concatenation of <=5 (thorough 6) tokens of a 16-token JSON alphabet (plus substitution passes), every number-like string of length <=6 (8) over {+,-,.,0,1,9,e,E}, every single-character escape and a boundary set of \\u escapes incl. all surrogate pair classes and non-hex characters in each position, nesting at 255/256/257 and exhaustive bracket strings under small depth limits, whitespace insertion and single-edit mutants of 20 seed documents, and every Value tree of <=4 (5) nodes over 31 leaves x 10 indent settings is run through the real parser/serialiser; acceptance must equal the reference recogniser's, the parsed value the reference value (members in document order), and parse(serialize(v)) must equal v with the text itself accepted by the reference.",
+         "Trusted: the reference recogniser in checks/src/refs/json.rs and std's f64 parsing for grammar-valid numbers. Escapes denoting unpaired surrogates are allowed either way, as the property states. Strings outside the enumerated alphabets/lengths are not covered.",
+         "DESIGN.md §3 C13"),
 }
 NOT_YET = {}
 
